@@ -409,6 +409,80 @@ fn param_eval(body: usize, a: usize, b: usize) -> Result<Option<String>, String>
     }
 }
 
+// ---------------------------------------------------------------------------------------
+// COMPONENTS OF (in last position, where the expansion keeps the order): the including type is
+// declared with the root components of the included type, and with nothing else of it
+
+const COMPOF_BASES: [(&str, &str); 8] = [
+    ("SEQUENCE { x INTEGER, y BOOLEAN OPTIONAL }", "x INTEGER, y BOOLEAN OPTIONAL"),
+    ("SEQUENCE { x INTEGER, ... }", "x INTEGER"),
+    ("SEQUENCE { x INTEGER, y BOOLEAN OPTIONAL, ..., z IA5String }", "x INTEGER, y BOOLEAN OPTIONAL"),
+    ("SEQUENCE { x INTEGER, ..., z IA5String, w NULL OPTIONAL }", "x INTEGER"),
+    ("SEQUENCE { x INTEGER, ..., [[ z IA5String, w NULL OPTIONAL ]] }", "x INTEGER"),
+    ("SEQUENCE { x SEQUENCE OF INTEGER, y CHOICE { p NULL, q BOOLEAN }, ..., z IA5String }", "x SEQUENCE OF INTEGER, y CHOICE { p NULL, q BOOLEAN }"),
+    ("SET { x INTEGER, y BOOLEAN OPTIONAL }", "x INTEGER, y BOOLEAN OPTIONAL"),
+    ("SET { x INTEGER, y BOOLEAN DEFAULT TRUE, ..., z IA5String }", "x INTEGER, y BOOLEAN DEFAULT TRUE"),
+];
+
+fn compof_texts(base: usize, lead: bool, own_marker: bool) -> (String, String) {
+    let (b, root) = COMPOF_BASES[base % COMPOF_BASES.len()];
+    let kw = if b.starts_with("SET") { "SET" } else { "SEQUENCE" };
+    let head = "Cof-Mod DEFINITIONS AUTOMATIC TAGS ::= BEGIN\n";
+    let l = if lead { "lead NULL, " } else { "" };
+    let m = if own_marker { ", ..." } else { "" };
+    (
+        format!("{head}Zb-Base ::= {b}\nInst ::= {kw} {{ {l}COMPONENTS OF Zb-Base{m} }}\nEND\n"),
+        format!("{head}Zb-Base ::= {b}\nInst ::= {kw} {{ {l}{root}{m} }}\nEND\n"),
+    )
+}
+
+fn compof_eval(base: usize, lead: bool, own_marker: bool) -> Result<Option<String>, String> {
+    let (sugared, expanded) = compof_texts(base, lead, own_marker);
+    let decl = |text: &str| -> Result<String, String> {
+        match comp::compile_ts(&[text.to_string()]) {
+            Outcome::Ok(c) if c.warnings.is_empty() => {
+                let nss = crate::tsparse::parse(&c.generated)?;
+                let ns = nss.first().ok_or("no namespace")?;
+                let m = crate::tsparse::decl_map(ns);
+                Ok(format!("{:?}", m.get("Inst").ok_or("no declaration of Inst")?))
+            }
+            Outcome::Ok(c) => Err(format!("warnings: {}", c.warnings[0])),
+            Outcome::Err(e) => Err(e),
+            Outcome::Panic(p) => Err(format!("panic: {p}")),
+        }
+    };
+    let want = decl(&expanded)?;
+    match decl(&sugared) {
+        Ok(got) if got == want => Ok(None),
+        Ok(got) => Ok(Some(format!("the including type is declared as {got}, the same type written out as {want}"))),
+        Err(e) => Ok(Some(format!("the type written out is declared as {want}, the including type: {e}"))),
+    }
+}
+
+fn compof_leg(ctx: &mut Ctx) {
+    let mut reported = 0;
+    for base in 0..COMPOF_BASES.len() {
+        for lead in [false, true] {
+            for own_marker in [false, true] {
+                match compof_eval(base, lead, own_marker) {
+                    Err(_) => ctx.class("compof:skipped (the written-out type is rejected)"),
+                    Ok(res) => {
+                        ctx.case(&format!("compof:{}", compof_texts(base, lead, own_marker).0), true);
+                        ctx.class("leg:components-of");
+                        if let Some(d) = res {
+                            ctx.class("fails:compof");
+                            if reported < 3 {
+                                reported += 1;
+                                ctx.fail(crate::ev::Failure { finding: None, what: format!("COMPONENTS OF: {d}"), replay: json!({"kind": "c18-compof", "base": base, "lead": lead, "own_marker": own_marker, "sources": [{"name": "cof.asn", "text": compof_texts(base, lead, own_marker).0}]}) });
+                            }
+                        }
+                    }
+                }
+            }
+        }
+    }
+}
+
 fn param_leg(ctx: &mut Ctx) {
     let mut reported = 0;
     for body in 0..PARAM_BODIES.len() {
@@ -450,6 +524,18 @@ pub fn run(tier: Tier, seed: u64, replay: Option<String>) -> i32 {
     let run = GenericRun { gcfg: gen_cfg(), n: tier.pick(30000, 300000), stream_len: 4000, salt: 18, shrink_budget: 300, max_violations: 3, eval: &e };
     if let Some(p) = &replay {
         let v: serde_json::Value = serde_json::from_str(&std::fs::read_to_string(p).unwrap_or_default()).unwrap_or_default();
+        if v["kind"] == "c18-compof" {
+            let (b, l, m) = (v["base"].as_u64().unwrap_or(0) as usize, v["lead"].as_bool().unwrap_or(false), v["own_marker"].as_bool().unwrap_or(false));
+            ctx.case(&compof_texts(b, l, m).0, true);
+            match compof_eval(b, l, m) {
+                Ok(Some(d)) => {
+                    ctx.fail(crate::ev::Failure { finding: None, what: format!("COMPONENTS OF: {d}"), replay: v.clone() });
+                }
+                Ok(None) => {}
+                Err(e) => ctx.inconclusive.push(e),
+            }
+            return ctx.finish();
+        }
         if v["kind"] == "c18-param" {
             let g = |k: &str| v[k].as_u64().unwrap_or(0) as usize;
             ctx.case(&param_texts(g("body"), g("a"), g("b")).0, true);
@@ -476,5 +562,6 @@ pub fn run(tier: Tier, seed: u64, replay: Option<String>) -> i32 {
     ctx.class_n("excluded_by_finding[F-ts-group]:cases_generated_without_groups", without.n as u64);
     run_generic_no_replay(&mut ctx, &without, "c18");
     param_leg(&mut ctx);
+    compof_leg(&mut ctx);
     ctx.finish()
 }
